@@ -89,6 +89,11 @@ func NewRegistry[R, T any]( // Type of remote RPCs to implement, type of nested 
 	}, *new(R), map[string]R{}, &sync.Mutex{}, hooks}
 }
 
+// callOnEndedLinkError marks the failure of a call that was made after its link had already ended
+type callOnEndedLinkError struct {
+	error
+}
+
 func (r Registry[R, T]) makeRPC(
 	// This is separate from the context that is the first argument to each RPC because we also
 	// want to be able to cancel all in-flight RPCs if the context passed to a `Link*()` function is cancelled
@@ -114,7 +119,12 @@ func (r Registry[R, T]) makeRPC(
 					err = utils.ErrPanickedWithNonErrorValue
 				}
 
-				setErr(err)
+				if c, consequential := e.(callOnEndedLinkError); consequential {
+					// The link has already ended; this call only fails because of that, so it must not be reported as the error that ended the link
+					err = c.error
+				} else {
+					setErr(err)
+				}
 			}
 
 			// If we tried to return with an invalid results count, set them so that the call doesn't panic
@@ -180,6 +190,10 @@ func (r Registry[R, T]) makeRPC(
 
 		rr, err := responseResolver.Receive(callID, ctx)
 		if err != nil {
+			if errors.Is(err, utils.ErrClosed) {
+				panic(callOnEndedLinkError{err})
+			}
+
 			panic(err)
 		}
 
